@@ -2,7 +2,7 @@
 
 A measurement spec is a dict:
   kind: 'scalar' | 'dim1' | 'dim2'
-  transform: None | 'x2' | 'round0'
+  transform: None | 'x2' | 'round0' | 'roundm1'
   validators: list of validator codes, see VALIDATORS
   cond: None | [result, validator code]   (conditional validator)
 """
@@ -78,6 +78,8 @@ def transform(code, v):
       return v * 2
     if code == 'round0':
       return round(v, ndigits=0)
+    if code == 'roundm1':
+      return round(v, ndigits=-1)
   except Exception as e:  # pylint: disable=broad-except
     raise TransformRaised(str(e))
   raise AssertionError(code)
